@@ -23,6 +23,23 @@ import LinVerif.Model.NaiveQuery
 namespace LinVerif.MemDB
 open LinVerif LinVerif.NaiveQuery
 
+/-- which variant of the statements repaired by the `fix:` commits of this property the source
+has (regenerated from /repo on every run, see `Generated/C11.lean` `fix*` and the tie theorem
+`Props.C11.cfg_tie`). `Cfg.fixed` is the repaired code, `Cfg.old` the code before the fixes (kept
+for the proved negations, which document what each fix repaired). -/
+structure Cfg where
+  endGuard : Bool           -- write(): `end` only grows inside a window            (02a0667)
+  mergeOldFirst : Bool      -- merge(): Aggregate(oldValue, newValue)               (73bdfe1)
+  uniqueCreated : Bool      -- memory databases get process-unique created times    (4be15ce)
+  notFoundIgnored : Bool    -- a source without data does not hide the other ones   (636394b)
+  singleFieldByIndex : Bool -- a one-field block is read into its own query field   (c783635)
+  aggregateByType : Bool    -- Aggregate merges a primitive series by its agg type  (eb2ea99)
+  monthFamilyTime : Bool    -- GetDataFamilies truncates in the timestamps' segments (8adefd6)
+  deriving Repr, DecidableEq
+
+def Cfg.fixed : Cfg := ⟨true, true, true, true, true, true, true⟩
+def Cfg.old : Cfg := ⟨false, false, false, false, false, false, false⟩
+
 /-! ## 1. the field write buffer (one page of one series in one field's DataPointBuffer) -/
 
 /-- mark bit + 8-byte value of the buffer body, abstracted to `Option Int`
@@ -66,17 +83,29 @@ def oldValue (c : Option Compress) (slot : Nat) : Option Int :=
   | none => none
   | some c => if slot < c.start then none else cellAt c.cells (slot - c.start)
 
-/-- one iteration of the `merge` loop (note the argument order of `Aggregate(newValue, oldValue)`). -/
+/-- one iteration of the `merge` loop: `Aggregate(oldValue, newValue)` (repaired order: the
+compressed, older value first, as `write` does for a slot inside the window). -/
 def mergeCell (A : AggType) (new old : Option Int) : Option Int :=
+  match new, old with
+  | some n, none => some n
+  | some n, some o => some (A.agg o n)
+  | none, some o => some o
+  | none, none => none
+
+/-- the `merge` loop before fix 73bdfe1: `Aggregate(newValue, oldValue)`. -/
+def mergeCellOld (A : AggType) (new old : Option Int) : Option Int :=
   match new, old with
   | some n, none => some n
   | some n, some o => some (A.agg n o)
   | none, some o => some o
   | none, none => none
 
+/-- `merge` over the slot range `[lo, hi]` with merge step `mc`. -/
+def mergeRangeG (mc : Option Int → Option Int → Option Int) (b : Buf) (lo hi : Nat) : Cells :=
+  (List.range (hi + 1 - lo)).map (fun i => mc (curValue b (lo + i)) (oldValue b.compress (lo + i)))
+
 /-- `merge` over the slot range `[lo, hi]`: the emitted time bits/values as cells. -/
-def mergeRange (A : AggType) (b : Buf) (lo hi : Nat) : Cells :=
-  (List.range (hi + 1 - lo)).map (fun i => mergeCell A (curValue b (lo + i)) (oldValue b.compress (lo + i)))
+def mergeRange (A : AggType) (b : Buf) (lo hi : Nat) : Cells := mergeRangeG (mergeCell A) b lo hi
 
 /-- `slotRange(currentStart, buf, compress)` (with `getTimeSlotRange`). -/
 def slotRange (b : Buf) : Nat × Nat :=
@@ -89,44 +118,46 @@ def slotRange (b : Buf) : Nat × Nat :=
     let ce := c.start + c.cells.length - 1
     (if cs > s then s else cs, if ce < e then e else ce)
 
-/-- `compact`: merge the window into the compress buffer, then `resetBuf`. -/
-def compact (A : AggType) (b : Buf) : Buf :=
+/-- `compact` with merge step `mc`: merge the window into the compress buffer, then `resetBuf`. -/
+def compactG (mc : Option Int → Option Int → Option Int) (b : Buf) : Buf :=
   let r := slotRange b
-  { b with compress := some ⟨r.1, mergeRange A b r.1 r.2⟩,
+  { b with compress := some ⟨r.1, mergeRangeG mc b r.1 r.2⟩,
            hasData := false,
            cells := b.cells.map (fun _ => none) }
+
+/-- `compact`. -/
+def compact (A : AggType) (b : Buf) : Buf := compactG (mergeCell A) b
 
 /-- `writeFirstPoint`. -/
 def writeFirst (b : Buf) (slot : Nat) (v : Int) : Buf :=
   { b with hasData := true, start := slot, endd := 0, cells := b.cells.set 0 (some v) }
 
-/-- `write` (window `w = timeWindow(buf)`). -/
-def write (w : Nat) (A : AggType) (b : Buf) (slot : Nat) (v : Int) : Buf :=
+/-- `write` (window `w = timeWindow(buf)`), generic in the two repaired statements: `guard` =
+the assignment of `end` is guarded by `delta > end`; `cmp` = the compaction. -/
+def writeG (guard : Bool) (cmp : Buf → Buf) (w : Nat) (A : AggType) (b : Buf) (slot : Nat) (v : Int) : Buf :=
   if !b.hasData then writeFirst b slot v
-  else if slot < b.start ∨ slot > b.start + w - 1 then writeFirst (compact A b) slot v
+  else if slot < b.start ∨ slot > b.start + w - 1 then writeFirst (cmp b) slot v
   else
     let d := slot - b.start
     match cellAt b.cells d with
     | some old => { b with cells := b.cells.set d (some (A.agg old v)) }
-    | none => { b with endd := d, cells := b.cells.set d (some v) }
+    | none => { b with endd := if guard then (if d > b.endd then d else b.endd) else d,
+                       cells := b.cells.set d (some v) }
 
-/-- the step of `write` that the property needs excluded: a first-time slot inside the window
-that lies *before* the current `end` (the assignment `buf[endOffset] = delta` then shrinks `end`). -/
-def unsafeStep (w : Nat) (b : Buf) (slot : Nat) : Bool :=
-  b.hasData && !(decide (slot < b.start) || decide (slot > b.start + w - 1)) &&
-    (cellAt b.cells (slot - b.start)).isNone && decide (slot - b.start < b.endd)
+/-- `write` as it is now: `if byte(delta) > buf[endOffset] { buf[endOffset] = byte(delta) }`. -/
+def write (w : Nat) (A : AggType) (b : Buf) (slot : Nat) (v : Int) : Buf :=
+  writeG true (compact A) w A b slot v
+
+/-- the variant of `write` selected by the regenerated facts. -/
+def writeV (cfg : Cfg) (w : Nat) (A : AggType) (b : Buf) (slot : Nat) (v : Int) : Buf :=
+  writeG cfg.endGuard (compactG (if cfg.mergeOldFirst then mergeCell A else mergeCellOld A)) w A b slot v
 
 /-- run a write sequence on one page. -/
 def runWrites (w : Nat) (A : AggType) (b : Buf) (ws : List (Nat × Int)) : Buf :=
   ws.foldl (fun b x => write w A b x.1 x.2) b
 
-/-- all steps of the run are safe (executable form). -/
-def safeRunB (w : Nat) (A : AggType) : Buf → List (Nat × Int) → Bool
-  | _, [] => true
-  | b, x :: rest => !unsafeStep w b x.1 && safeRunB w A (write w A b x.1 x.2) rest
-
-/-- all steps of the run are safe. -/
-def SafeRun (w : Nat) (A : AggType) (b : Buf) (ws : List (Nat × Int)) : Prop := safeRunB w A b ws = true
+def runWritesV (cfg : Cfg) (w : Nat) (A : AggType) (b : Buf) (ws : List (Nat × Int)) : Buf :=
+  ws.foldl (fun b x => writeV cfg w A b x.1 x.2) b
 
 /-- what a memory query sees of one page for a function of agg type `F`
 (`timeSeriesIndex.Load`: the compress buffer is down-sampled first, then the write buffer). -/
@@ -135,6 +166,9 @@ def memView (F : AggType) (b : Buf) (slot : Nat) : Option Int :=
 
 /-- `flushFieldTo`: `merge` over the metric-level slot range, without time range. -/
 def flushCells (A : AggType) (b : Buf) (lo hi : Nat) : Cells := mergeRange A b lo hi
+
+def flushCellsV (cfg : Cfg) (A : AggType) (b : Buf) (lo hi : Nat) : Cells :=
+  mergeRangeG (if cfg.mergeOldFirst then mergeCell A else mergeCellOld A) b lo hi
 
 /-! ## 2. memory database, shard-level time-series index, data family -/
 
@@ -180,14 +214,20 @@ def Family.chron (f : Family) : List Block :=
 /-- shard state: families by index, and the metric's `timeSeriesIndex.families`
 (created time ↦ metric-level slot range), which is shared by all families of the shard. -/
 structure Shard where
+  cfg : Cfg
   window : Nat
   families : List (Nat × Family)
   ranges : List (Nat × (Nat × Nat))
   fieldTypes : List (Nat × FieldType)     -- schema: field key ↦ type (first write wins)
   known : List Nat                        -- series of the in-memory index (`timeSeriesIndex.ids`), lost on reopen
+  nextTick : Nat                          -- `lastCreatedTime`: the next process-unique created time
   deriving Repr
 
-def Shard.init (w : Nat) : Shard := ⟨w, [], [], [], []⟩
+/-- the empty shard of the repaired code. -/
+def Shard.init (w : Nat) : Shard := ⟨Cfg.fixed, w, [], [], [], [], 0⟩
+
+/-- the empty shard of a given code variant. -/
+def Shard.initV (cfg : Cfg) (w : Nat) : Shard := ⟨cfg, w, [], [], [], [], 0⟩
 
 def Shard.family (s : Shard) (fam : Nat) : Family :=
   (Map.lookup s.families fam).getD Family.empty
@@ -198,22 +238,31 @@ def storeTimeRange (rs : List (Nat × (Nat × Nat))) (created slot : Nat) : List
   | none => Map.upsert rs created (slot, slot)
   | some (lo, hi) => Map.upsert rs created (if slot < lo then slot else lo, if slot > hi then slot else hi)
 
+/-- the created time of a memory database created now: `nextCreatedTime()` hands out
+process-unique values (model: a counter); before fix 4be15ce it was the 5 ms `fasttime` tick
+observed by the harness (`tick`). -/
+def Shard.newCreated (s : Shard) (tick : Nat) : Nat :=
+  if s.cfg.uniqueCreated then s.nextTick else tick
+
 /-- `dataFamily.WriteRows` → `memoryDatabase.WriteRow` → `writeLinField` → `write` for one field value.
-`tick` is the `fasttime` tick used as `createdTime` if a new mutable memory database is created. -/
+`tick` identifies the `fasttime` tick in which a new mutable memory database would be created. -/
 def Shard.write (s : Shard) (tick fam ser fld : Nat) (ft : FieldType) (slot : Nat) (v : Int) : Shard :=
   let f := s.family fam
   let md : MemDB := match f.mutable_ with
     | some md => md
-    | none => ⟨tick, []⟩
+    | none => ⟨s.newCreated tick, []⟩
   let b := (Map.lookup md.pages (ser, fld)).getD (Buf.fresh s.window)
-  let b' := MemDB.write s.window ft.aggType b slot v
+  let b' := MemDB.writeV s.cfg s.window ft.aggType b slot v
   let md' : MemDB := { md with pages := Map.upsert md.pages (ser, fld) b' }
   { s with families := Map.upsert s.families fam { f with mutable_ := some md' },
            ranges := storeTimeRange s.ranges md.created slot,
            fieldTypes := match Map.lookup s.fieldTypes fld with
              | some _ => s.fieldTypes
              | none => Map.upsert s.fieldTypes fld ft,
-           known := if s.known.contains ser then s.known else s.known ++ [ser] }
+           known := if s.known.contains ser then s.known else s.known ++ [ser],
+           nextTick := match f.mutable_ with
+             | some _ => s.nextTick
+             | none => s.nextTick + 1 }
 
 def Shard.fieldAgg (s : Shard) (fld : Nat) : AggType :=
   match Map.lookup s.fieldTypes fld with
@@ -227,7 +276,7 @@ def flushMemDB (s : Shard) (md : MemDB) : Option Block :=
   | none => none
   | some (lo, hi) =>
     some ⟨lo, hi, (md.pages.map (fun (p : PageKey × Buf) => p.1.2)).eraseDups, s.known,
-      md.pages.map (fun (p : PageKey × Buf) => (p.1, flushCells (s.fieldAgg p.1.2) p.2 lo hi))⟩
+      md.pages.map (fun (p : PageKey × Buf) => (p.1, flushCellsV s.cfg (s.fieldAgg p.1.2) p.2 lo hi))⟩
 
 /-- `dataFamily.Flush` (the memory database becomes immutable, is flushed to a new file, closed;
 `Close` → `indexDatabase.Cleanup` → `ClearTimeRange(createdTime)`). -/
@@ -316,9 +365,28 @@ def slotsOf (lo hi : Nat) : List Nat := (List.range (hi + 1 - lo)).map (fun i =>
 def dsCall (L : List AggType) (get : Nat → Option Int) (srcLo srcHi tLo tHi g0 qs ratio : Nat) : Arrays :=
   dsLoop get tLo tHi g0 qs ratio (slotsOf srcLo srcHi) (Arrays.init L)
 
-/-- `fieldAggregator.Aggregate(it)` at leaf reduce: every (slot, value) of every primitive
-iterator of the incoming field aggregator is fed to `AggregateBySlot`. -/
+/-- `fieldAggregator.aggregateBySlotOfType`: the value goes into the array of one agg type. -/
+def aggregateBySlotOfType (a : Arrays) (A : AggType) (t : Nat) (v : Int) : Arrays :=
+  a.map (fun (p : AggType × List (Nat × Int)) =>
+    if p.1 = A then
+      (p.1, match Map.lookup p.2 t with
+        | some old => Map.upsert p.2 t (p.1.agg old v)
+        | none => Map.upsert p.2 t v)
+    else p)
+
+/-- `fieldAggregator.Aggregate(it)` at leaf reduce: every (slot, value) of a primitive iterator of
+the incoming field aggregator goes into the array of the iterator's own agg type (into all arrays
+only when the aggregator has no array of that type). -/
 def reduceInto (acc : Arrays) (incoming : Arrays) : Arrays :=
+  incoming.foldl (fun acc (p : AggType × List (Nat × Int)) =>
+    if acc.any (fun (x : AggType × List (Nat × Int)) => x.1 = p.1) then
+      p.2.foldl (fun acc (tv : Nat × Int) => aggregateBySlotOfType acc p.1 tv.1 tv.2) acc
+    else
+      p.2.foldl (fun acc (tv : Nat × Int) => aggregateBySlot acc tv.1 tv.2) acc) acc
+
+/-- `fieldAggregator.Aggregate(it)` before fix eb2ea99: every (slot, value) of every primitive
+iterator is fed to `AggregateBySlot`, i.e. into every agg type's array. -/
+def reduceIntoOld (acc : Arrays) (incoming : Arrays) : Arrays :=
   incoming.foldl (fun acc (p : AggType × List (Nat × Int)) =>
     p.2.foldl (fun acc (tv : Nat × Int) => aggregateBySlot acc tv.1 tv.2) acc) acc
 
@@ -367,13 +435,16 @@ the order in which fields are first written). -/
 def firstQueryField (s : Shard) (sc : Scope) : Option Nat :=
   ((s.fieldTypes.map Prod.fst).filter (fun f => sc.fields.contains f)).head?
 
-/-- which field of the block feeds query field `q.field` (`metricReader.readSeriesData`): a file
-with several fields maps by field id; a file with exactly ONE field is down-sampled into query
-field index 0, whichever field it holds. -/
+/-- which field of the block feeds query field `q.field` (`metricReader.readSeriesData`): fields
+map by field id; before fix c783635 a file with exactly ONE field was down-sampled into query
+field index 0, whichever field it held. -/
 def blockSourceField (s : Shard) (q : Query) (sc : Scope) (blk : Block) : Option Nat :=
-  match blk.fields with
-  | [f] => if firstQueryField s sc = some q.field then some f else none
-  | fs => if fs.contains q.field then some q.field else none
+  if s.cfg.singleFieldByIndex then
+    (if blk.fields.contains q.field then some q.field else none)
+  else
+    match blk.fields with
+    | [f] => if firstQueryField s sc = some q.field then some f else none
+    | fs => if fs.contains q.field then some q.field else none
 
 /-- the calls of one file block (`readSeriesData`). -/
 def fileCalls (s : Shard) (q : Query) (sc : Scope) (L : List AggType) (blk : Block) (fam : Nat) (group : List Nat) : List Arrays :=
@@ -405,13 +476,14 @@ def memFilter (s : Shard) (q : Query) (sc : Scope) (md : MemDB) (fam : Nat) : Op
     else some false
   | _, _ => some false
 
-/-- the memory part of `dataFamily.Filter`: `none` = a not-found error of the memory database. -/
+/-- the memory part of `dataFamily.Filter`. A not-found error of the memory database means "no
+result set from this source"; before fix 636394b it failed the whole family (`none`). -/
 def memResult (s : Shard) (q : Query) (sc : Scope) (L : List AggType) (fam : Nat) (group : List Nat) :
     Option (List Arrays) :=
   match (s.family fam).mutable_ with
   | some md =>
     match memFilter s q sc md fam with
-    | none => none
+    | none => if s.cfg.notFoundIgnored then some [] else none
     | some true => some (memCalls s q L md fam group)
     | some false => some []
   | none => some []
@@ -422,24 +494,26 @@ def familyReaders (s : Shard) (q : Query) (fam : Nat) : List Block :=
   | some (tLo, tHi) => (s.family fam).readers.filter (fun (blk : Block) => overlap blk.lo blk.hi tLo tHi)
   | none => []
 
-/-- memory result sets first, then the files; if files overlap the query range but none of them
-holds a queried field and series, `metricsDataFilter.Filter` returns `ErrNotFound`. -/
-def combineCalls (sc : Scope) (mem : List Arrays) (readers : List Block) (callsOf : Block → List Arrays) : List Arrays :=
+/-- memory result sets first, then the files that hold a queried field and series. Before fix
+636394b: if files overlapped the query range but none of them matched, `metricsDataFilter.Filter`'s
+`ErrNotFound` failed the whole family (`ignore = false`). -/
+def combineCalls (ignore : Bool) (sc : Scope) (mem : List Arrays) (readers : List Block)
+    (callsOf : Block → List Arrays) : List Arrays :=
   if readers.isEmpty then mem
-  else if (readers.filter (blockMatches sc)).isEmpty then []
+  else if (readers.filter (blockMatches sc)).isEmpty then (if ignore then mem else [])
   else mem ++ (readers.filter (blockMatches sc)).flatMap callsOf
 
-/-- `dataFamily.Filter` + the data-load stage of the family. A not-found error of the memory
-database or of the file filter makes `dataFamily.Filter` return the error; the operator ignores
-not-found, so the family contributes nothing at all. -/
+/-- `dataFamily.Filter` + the data-load stage of the family. -/
 def familyCalls (s : Shard) (q : Query) (sc : Scope) (L : List AggType) (fam : Nat) (group : List Nat) : List Arrays :=
   match memResult s q sc L fam group with
   | none => []
-  | some mem => combineCalls sc mem (familyReaders s q fam) (fun blk => fileCalls s q sc L blk fam group)
+  | some mem =>
+    combineCalls s.cfg.notFoundIgnored sc mem (familyReaders s q fam) (fun blk => fileCalls s q sc L blk fam group)
 
 /-- leaf result arrays of one group: all calls of all families (ascending), reduced. -/
 def leafGroup (s : Shard) (q : Query) (sc : Scope) (L : List AggType) (fams group : List Nat) : Arrays :=
-  (fams.flatMap (fun fam => familyCalls s q sc L fam group)).foldl reduceInto (Arrays.init L)
+  (fams.flatMap (fun fam => familyCalls s q sc L fam group)).foldl
+    (if s.cfg.aggregateByType then reduceInto else reduceIntoOld) (Arrays.init L)
 
 /-- the non-empty buckets of agg type `A`, ascending. -/
 def bucketsOf (q : Query) (a : Arrays) (A : AggType) : List (Nat × Int) :=
@@ -471,13 +545,13 @@ def monthOfDay : List Nat → Nat → Nat × Nat
   | [], d => (0, d + 1)
   | l :: ls, d => if d < l then (0, d + 1) else ((monthOfDay ls (d - l)).1 + 1, (monthOfDay ls (d - l)).2)
 
-/-- is the family of absolute day `f` selected for the query `[qs, qe]` (absolute days):
-its segment (month) is walked iff `CalcSegmentTime(start) ≤ segmentTime ≤ end`; inside the segment
-the family query range is `CalcFamilyStartTime(base, CalcFamily(start))` ..
+/-- is the family of absolute day `f` selected for the query `[qs, qe]` (absolute days), BEFORE
+fix 8adefd6: its segment (month) is walked iff `CalcSegmentTime(start) ≤ segmentTime ≤ end`; inside
+the segment the family query range was `CalcFamilyStartTime(base, CalcFamily(start))` ..
 `CalcFamilyStartTime(base, CalcFamily(end))` where `CalcFamily` is the *day of month* of the
 timestamp (the segment's own month is not consulted) and `time.Date` normalises day overflow;
 `TimeRange.Overlap` = `r.Contains(o.Start) || o.Contains(r.Start)`. -/
-def monthFamilySelected (lens : List Nat) (qs qe f : Nat) : Bool :=
+def monthFamilySelectedOld (lens : List Nat) (qs qe f : Nat) : Bool :=
   let m := (monthOfDay lens f).1
   let segTime := monthStart lens m
   let qsSeg := monthStart lens (monthOfDay lens qs).1
@@ -486,6 +560,20 @@ def monthFamilySelected (lens : List Nat) (qs qe f : Nat) : Bool :=
     let S := segTime + (monthOfDay lens qs).2 - 1
     let E := segTime + (monthOfDay lens qe).2 - 1
     (decide (f ≥ S) && decide (f ≤ E)) || decide (f = S)
+
+/-- the repaired selection: the family query range is `CalcFamilyTime(start)` ..
+`CalcFamilyTime(end)` (the start of the day of `start` / `end`, each in its own segment). -/
+def monthFamilySelected (lens : List Nat) (qs qe f : Nat) : Bool :=
+  let segTime := monthStart lens (monthOfDay lens f).1
+  let qsSeg := monthStart lens (monthOfDay lens qs).1
+  if segTime < qsSeg ∨ segTime > qe then false
+  else (decide (f ≥ qs) && decide (f ≤ qe)) || decide (f = qs)
+
+def monthFamilySelectedV (cfg : Cfg) (lens : List Nat) (qs qe f : Nat) : Bool :=
+  if cfg.monthFamilyTime then monthFamilySelected lens qs qe f else monthFamilySelectedOld lens qs qe f
+
+def monthSelectV (cfg : Cfg) (lens : List Nat) (fams : List Nat) (qs qe : Nat) : List Nat :=
+  fams.filter (monthFamilySelectedV cfg lens qs qe)
 
 def monthSelect (lens : List Nat) (fams : List Nat) (qs qe : Nat) : List Nat :=
   fams.filter (monthFamilySelected lens qs qe)
